@@ -186,15 +186,13 @@ type simServer struct {
 	decodes  int
 	clean    bool // no injected faults (reference servers)
 	kvSeen   int  // cache version at the last slot-content check
-
-	failedShiftSlot int // slot whose shift has just been refused (-1: none)
 }
 
 var simModelSeq int
 
 func (w *runWorld) newServer(name string, parallel, batch int, clean bool) *simServer {
 	cfg := w.cfg
-	srv := &simServer{name: name, w: w, cfg: cfg, parallel: parallel, taskReq: map[string]*reqState{}, clean: clean, failedShiftSlot: -1, kvSeen: -1}
+	srv := &simServer{name: name, w: w, cfg: cfg, parallel: parallel, taskReq: map[string]*reqState{}, clean: clean, kvSeen: -1}
 	for i := 0; i < parallel; i++ {
 		srv.logs = append(srv.logs, &seqLog{})
 	}
@@ -338,8 +336,10 @@ func (srv *simServer) onOp(c *llama.Context, op llama.OpInfo) {
 		}
 		l := srv.log(seq)
 		if p1 < 0 {
-			// LoadCacheSlot (on the handler's goroutine), findBestCacheSlot, or ShiftCacheSlot's reset
-			if r := srv.taskReq[verifsim.TaskKey()]; r != nil && seq < len(srv.slotReq) {
+			// LoadCacheSlot / findBestCacheSlot (on the handler's goroutine), or the reset in
+			// ShiftCacheSlot's fallback (on the run loop's goroutine)
+			r := srv.taskReq[verifsim.TaskKey()]
+			if r != nil && seq < len(srv.slotReq) {
 				srv.slotReq[seq] = r
 				r.slot = seq
 				r.admitted = true
@@ -350,8 +350,7 @@ func (srv *simServer) onOp(c *llama.Context, op llama.OpInfo) {
 				return
 			}
 			if p0 <= 0 {
-				if srv.failedShiftSlot == seq {
-					srv.failedShiftSlot = -1
+				if r == nil {
 					verifsim.Probe("shift_fallback")
 				}
 				l.reset()
@@ -366,7 +365,6 @@ func (srv *simServer) onOp(c *llama.Context, op llama.OpInfo) {
 		if !op.OK {
 			verifsim.Probe("shift_erase_refused")
 			l.op("shift-refused")
-			srv.failedShiftSlot = seq
 			return
 		}
 		l.op("shift")
@@ -551,7 +549,11 @@ var verifIgnore = strings.Split(os.Getenv("VERIF_IGNORE"), ",")
 // the property that is not being checked are reported too (signature prefix other:<ID>:).
 var verifAllProps = os.Getenv("VERIF_ALLPROPS") != ""
 
+// Every signature of this harness starts with "llamarunner:": the same symptom names exist in
+// harness "runner" (the Go engine runner), whose known findings and fixes must not be
+// confused with findings in runner/llamarunner's own copy of the code.
 func (w *runWorld) violate(prop, class, sig, f string, a ...any) {
+	sig = "llamarunner:" + sig
 	if prop != w.prop {
 		// the other property's oracle: its check reports it; do not cut this run short
 		w.other[prop+":"+sig]++
